@@ -110,6 +110,8 @@ func Build(specs []GenSpec) []gengo.Generator {
 			case "render", "defer-error", "kill-defer":
 				render(c, bh, name)
 			case "nothing", "alias-only", "alias-ignore-nothing":
+			case "alias-error":
+				render(c, bh, name)
 			case "skip":
 				return gengo.ErrSkip
 			case "ignore-nothing":
@@ -163,6 +165,8 @@ func Build(specs []GenSpec) []gengo.Generator {
 					return gengo.ErrIgnore
 				case "skip":
 					return gengo.ErrSkip
+				case "alias-error":
+					return fmt.Errorf("alias %s: %w", a.Obj().Name(), ErrInjected)
 				}
 				return nil
 			}
